@@ -351,6 +351,13 @@ func (x *Exec) pick() *Thread {
 				return nil
 			}
 		}
+		if x.tracing && len(alts) > 1 {
+			names := ""
+			for k, al := range alts {
+				names += fmt.Sprintf(" %d:%s(c%d)", k, al.t.Name, al.cost)
+			}
+			x.tlog = append(x.tlog, fmt.Sprintf("    choice#%d ->%d of%s", len(x.trace)-1, i, names))
+		}
 		a := alts[i]
 		if a.adv > 0 {
 			x.clock = a.adv
